@@ -169,6 +169,7 @@ func (e *Env) opaque(x ast.Expr, st *State) Value {
 			for _, f := range facts {
 				st.assume(f)
 			}
+			c.allocated(st, v, tup.At(i).Type())
 			tv.Vs = append(tv.Vs, v)
 		}
 		return tv
@@ -177,7 +178,26 @@ func (e *Env) opaque(x ast.Expr, st *State) Value {
 	for _, f := range facts {
 		st.assume(f)
 	}
+	c.allocated(st, v, t)
 	return v
+}
+
+// allocated: a reference handed out by an unmodelled call points to something that exists now (the heap is closed
+// under allocation: it is below the current allocation counter).
+func (c *FCtx) allocated(st *State, v Value, t types.Type) {
+	al := c.heapGet(st, "$alloc", SInt)
+	switch x := v.(type) {
+	case *SliceV:
+		st.assume(ILt(x.Base, al))
+	case *Term:
+		if t == nil || x.Sort != SInt {
+			return
+		}
+		switch t.Underlying().(type) {
+		case *types.Pointer, *types.Map, *types.Chan, *types.Interface, *types.Signature:
+			st.assume(ILt(x, al))
+		}
+	}
 }
 
 func (e *Env) evalIdent(y *ast.Ident, st *State) Value {
